@@ -32,6 +32,9 @@ MAP = [
     ("structured bindings of a ContiguousElement did not compile", "C20", "probe cell 'structured bindings of an element' for every list with 2 or 3 parameters"),
     ("erase on non-trivial VaryingSize vectors placed the following elements unaligned", "C03", "V7 <AlignAs<size_t,8>, VaryingSize<Trk>, u8>: three elements; er(0): third element at address = 1 (mod 8)"),
     ("assigning to a moved-from ContiguousElement wrote through its stale pointers", "C12", "F3 elem: xr(0); xmc(0,1); xca(1,0): the assignment overwrote element 1's storage"),
+    ("const_reference, const_iterator and const elements converted to their mutable counterparts", "C11", "constness cells: all 12 negative cells compiled (const_reference = x, reference{const_reference}, swap of const_references, iterator{const_iterator}, reference{const element}, ...)"),
+    ("emplace_back memcpy'd from std::deque iterators across block boundaries", "C15", "emplace matrix, form 'std::deque::iterator across blocks' n=2: heap-buffer-overflow and wrong stored values for every memcpy-compatible type pair"),
+    ("a default-initialised vector with FixedSize parameters had indeterminate fixed sizes", "C18", "F1: def(0) (`Vec v;` in junk-filled storage): get_fixed_size<0>() == 0xCDCD..."),
 ]
 
 
